@@ -1,14 +1,13 @@
 (** C09 — from the byte-level round trip to "the same vertices": the float exactness step,
-    the format choice of Polygon.encode, and the two refuted corners.
+    the format choice of Polygon.encode, and the refuted corner.
 
     Named hypotheses (explicit premises, Section variables; statements about float64 and
     about the two conversions of Base/GoPrim.v only, never about the Go code):
     - [H_piqi_exact]: whenever the cell-centre detection accepts a point at a level, the
       decoder's [facePiQitoXYZ] of the shifted (si,ti) is the very float vector the detection
       compared the point with ((pi+1/2)/2^level and si/2^31 are the same exact dyadic quotient);
-    - [H_f64_eqb_bits]: a float that compares [==] to the float of a bit pattern, and is not
-      zero, has that bit pattern;
-    - [H_f64_frombits_bits]: [frombits (bits c) = c]. *)
+    - [H_f64_bits_frombits]: [bits (frombits x) = x] for every finite bit pattern x.
+    Since d20845c the detection compares bit patterns, so no statement about [==] is needed. *)
 From Coq Require Import ZArith List Bool Lia Floats.
 From Geo Require Import Base.GoPrim Base.Bytes Gen.Codec Model.Codec.
 From Geo Require Import Proofs.C09_Prims Proofs.C09_Lossless Proofs.C09_Compressed.
@@ -19,10 +18,8 @@ Definition H_piqi_exact : Prop :=
   forall v face si ti level, s2_xyzToFaceSiTi (mk_s2_Point v) = (face, si, ti, level) -> 0 <= level ->
     s2_facePiQitoXYZ face (s2_siTitoPiQi si level) (s2_siTitoPiQi ti level) level
     = r3_Vector_Normalize (s2_Point_Vector (s2_faceSiTiToXYZ face si ti)).
-Definition H_f64_eqb_bits : Prop :=
-  forall x c, 0 <= x < 2 ^ 64 -> PrimFloat.eqb (go_float64frombits x) c = true ->
-    PrimFloat.eqb (go_float64frombits x) 0 = false -> go_float64bits c = x.
-Definition H_f64_frombits_bits : Prop := forall c, go_float64frombits (go_float64bits c) = c.
+Definition H_f64_bits_frombits : Prop :=
+  forall x, 0 <= x < 2 ^ 64 -> nonfinite_bits x = false -> go_float64bits (go_float64frombits x) = x.
 
 (** * The cell-centre detection always yields a face, and 32-bit si, ti *)
 Lemma face_range r : 0 <= s2_face r < 6.
@@ -33,7 +30,7 @@ Qed.
 Lemma stToSiTi_range s : u32 (s2_stToSiTi s).
 Proof. unfold s2_stToSiTi. destruct (PrimFloat.ltb s 0); apply wrap_u32_range. Qed.
 
-Lemma xyz_face_siti_ok p : point_ok p -> xfst_ok (xyz_face_siti p).
+Lemma xyz_face_siti_ok p : vertex_ok p -> xfst_ok (xyz_face_siti p).
 Proof.
   intros Hp. unfold xyz_face_siti, s2_xyzToFaceSiTi, s2_xyzToFaceUV.
   destruct (s2_validFaceXYZToUV _ _) as [u v]. cbv zeta.
@@ -41,11 +38,15 @@ Proof.
   (split; [exact Hp|]; split; [apply face_range|]; split; apply stToSiTi_range).
 Qed.
 
-(** a level >= 0 is reported only after the exact comparison succeeded *)
+(** a level >= 0 is reported only after the bit-for-bit comparison succeeded *)
+Definition bits_eq (a c : r3_Vector) : bool :=
+  ((go_float64bits (r3_Vector_X a) =? go_float64bits (r3_Vector_X c))
+   && (go_float64bits (r3_Vector_Y a) =? go_float64bits (r3_Vector_Y c)))
+  && (go_float64bits (r3_Vector_Z a) =? go_float64bits (r3_Vector_Z c)).
 Lemma xyz_level_nonneg_proj P :
   let r := s2_xyzToFaceSiTi P in
   0 <= snd r ->
-  r3_Vector_eqb (s2_Point_Vector P)
+  bits_eq (s2_Point_Vector P)
     (r3_Vector_Normalize (s2_Point_Vector (s2_faceSiTiToXYZ (fst (fst (fst r))) (snd (fst (fst r))) (snd (fst r))))) = true.
 Proof.
   unfold s2_xyzToFaceSiTi. destruct (s2_xyzToFaceUV (s2_Point_Vector P)) as [[f0 u] v]. cbv zeta.
@@ -55,29 +56,26 @@ Proof.
   destruct ((lv <? 0) || negb (lv =? lv2)).
   - cbn [fst snd]. intros H. exfalso. lia.
   - set (c := r3_Vector_Normalize (s2_Point_Vector (s2_faceSiTiToXYZ f0 si ti))).
-    destruct (r3_Vector_eqb (s2_Point_Vector P) c) eqn:E; cbn [fst snd].
+    fold (bits_eq (s2_Point_Vector P) c).
+    destruct (bits_eq (s2_Point_Vector P) c) eqn:E; cbn [fst snd].
     + intros _. exact E.
     + intros H. exfalso. lia.
 Qed.
 Lemma xyz_level_nonneg P f si ti lv : s2_xyzToFaceSiTi P = (f, si, ti, lv) -> 0 <= lv ->
-  r3_Vector_eqb (s2_Point_Vector P) (r3_Vector_Normalize (s2_Point_Vector (s2_faceSiTiToXYZ f si ti))) = true.
+  bits_eq (s2_Point_Vector P) (r3_Vector_Normalize (s2_Point_Vector (s2_faceSiTiToXYZ f si ti))) = true.
 Proof.
   intros E Hl. pose proof (xyz_level_nonneg_proj P) as H. cbv zeta in H. rewrite E in H. cbn [fst snd] in H. now apply H.
 Qed.
 
-Definition nonzero_coords (p : point) : Prop :=
-  let '(x, y, z) := p in
-  PrimFloat.eqb (go_float64frombits x) 0 = false /\ PrimFloat.eqb (go_float64frombits y) 0 = false
-  /\ PrimFloat.eqb (go_float64frombits z) 0 = false.
-
 Section Exact.
   Hypothesis Hpiqi : H_piqi_exact.
+  Hypothesis Hbits : H_f64_bits_frombits.
 
   (** the decoder recomputes exactly the vector the encoder compared the vertex with *)
   Lemma centre_is_compared_vector p : 0 <= x_level (xyz_face_siti p) ->
     let x := xyz_face_siti p in
     centre (x_level x) x = point_of_vec (r3_Vector_Normalize (s2_Point_Vector (s2_faceSiTiToXYZ (x_face x) (x_si x) (x_ti x))))
-    /\ r3_Vector_eqb (vec_of_point p) (r3_Vector_Normalize (s2_Point_Vector (s2_faceSiTiToXYZ (x_face x) (x_si x) (x_ti x)))) = true.
+    /\ bits_eq (vec_of_point p) (r3_Vector_Normalize (s2_Point_Vector (s2_faceSiTiToXYZ (x_face x) (x_si x) (x_ti x)))) = true.
   Proof.
     unfold xyz_face_siti. destruct (s2_xyzToFaceSiTi (mk_s2_Point (vec_of_point p))) as [[[f si] ti] lv] eqn:E.
     cbn [x_level x_face x_si x_ti]. intros Hl. split.
@@ -85,34 +83,23 @@ Section Exact.
     - exact (xyz_level_nonneg _ _ _ _ _ E Hl).
   Qed.
 
-  (** Go [==] on every coordinate, always *)
-  Theorem snapped_vertex_feq (Hrt : H_f64_frombits_bits) p level : x_level (xyz_face_siti p) = level -> 0 <= level ->
-    r3_Vector_eqb (vec_of_point p) (vec_of_point (recon level (xyz_face_siti p))) = true.
-  Proof.
-    intros El Hl. unfold recon. rewrite El, Z.eqb_refl. subst level.
-    destruct (centre_is_compared_vector p Hl) as (C & Q). cbv zeta in C, Q. rewrite C.
-    set (c := r3_Vector_Normalize _) in *. destruct c as [cx cy cz].
-    unfold point_of_vec, vec_of_point at 2. cbn [r3_Vector_X r3_Vector_Y r3_Vector_Z]. now rewrite !Hrt.
-  Qed.
-
-  (** bit for bit, unless a coordinate is zero *)
-  Theorem snapped_vertex_exact (Hbits : H_f64_eqb_bits) p level : point_ok p -> nonzero_coords p ->
+  (** a vertex encoded as a cell centre comes back bit for bit *)
+  Theorem snapped_vertex_exact p level : vertex_ok p ->
     x_level (xyz_face_siti p) = level -> 0 <= level -> recon level (xyz_face_siti p) = p.
   Proof.
-    intros Hp Hnz El Hl. unfold recon. rewrite El, Z.eqb_refl. subst level.
+    intros Hp El Hl. unfold recon. rewrite El, Z.eqb_refl. subst level.
     destruct (centre_is_compared_vector p Hl) as (C & Q). cbv zeta in C, Q. rewrite C.
     set (c := r3_Vector_Normalize _) in *. destruct c as [cx cy cz]. destruct p as [[x y] z].
-    destruct Hp as (Hx & Hy & Hz). destruct Hnz as (Nx & Ny & Nz).
-    unfold r3_Vector_eqb, vec_of_point in Q. cbn [r3_Vector_X r3_Vector_Y r3_Vector_Z] in Q.
+    destruct Hp as ((Hx & Hy & Hz) & Fx & Fy & Fz).
+    unfold bits_eq, vec_of_point in Q. cbn [r3_Vector_X r3_Vector_Y r3_Vector_Z] in Q.
     apply andb_true_iff in Q. destruct Q as [Q Qz]. apply andb_true_iff in Q. destruct Q as [Qx Qy].
-    unfold point_of_vec. cbn [r3_Vector_X r3_Vector_Y r3_Vector_Z].
-    now rewrite (Hbits x cx Hx Qx Nx), (Hbits y cy Hy Qy Ny), (Hbits z cz Hz Qz Nz).
+    apply Z.eqb_eq in Qx, Qy, Qz. rewrite Hbits in Qx, Qy, Qz by auto.
+    unfold point_of_vec. cbn [r3_Vector_X r3_Vector_Y r3_Vector_Z]. now rewrite <- Qx, <- Qy, <- Qz.
   Qed.
 
-  Theorem vertex_exact (Hbits : H_f64_eqb_bits) p level : point_ok p -> nonzero_coords p -> 0 <= level ->
-    recon level (xyz_face_siti p) = p.
+  Theorem vertex_exact p level : vertex_ok p -> 0 <= level -> recon level (xyz_face_siti p) = p.
   Proof.
-    intros Hp Hnz Hl. destruct (Z.eq_dec (x_level (xyz_face_siti p)) level) as [E|E].
+    intros Hp Hl. destruct (Z.eq_dec (x_level (xyz_face_siti p)) level) as [E|E].
     - now apply snapped_vertex_exact.
     - unfold recon. replace (x_level (xyz_face_siti p) =? level) with false by (symmetry; now apply Z.eqb_neq).
       unfold xyz_face_siti. destruct (s2_xyzToFaceSiTi _) as [[[f si] ti] lv]. reflexivity.
@@ -165,52 +152,57 @@ Proof. congruence. Qed.
 
 Section ExactPolygon.
   Hypothesis Hpiqi : H_piqi_exact.
-  Hypothesis Hbits : H_f64_eqb_bits.
+  Hypothesis Hbits : H_f64_bits_frombits.
 
-  Lemma cloop_view_exact level l : 0 <= level -> Forall point_ok (l_vertices l) -> Forall nonzero_coords (l_vertices l) ->
+  Lemma cloop_view_exact level l : 0 <= level -> Forall vertex_ok (l_vertices l) ->
     l_vertices l <> [] -> cloop_view level l = cloop_of_loop l.
   Proof.
-    intros Hl Hv Hnz Hne. unfold cloop_view, cloop_of_loop.
+    intros Hl Hv Hne. unfold cloop_view, cloop_of_loop.
     replace (len (l_vertices l) =? 0) with false.
     2:{ symmetry. apply Z.eqb_neq. unfold len. destruct (l_vertices l); [contradiction|cbn; lia]. }
     f_equal. rewrite <- (map_id (l_vertices l)) at 2. apply map_ext_in. intros v Hin.
-    rewrite Forall_forall in Hv, Hnz. apply vertex_exact; auto.
+    rewrite Forall_forall in Hv. apply vertex_exact; auto.
   Qed.
 
-  (** the full statement for polygons whose loops have vertices and whose coordinates are not zero *)
+  (** the full statement for polygons whose loops have at least one vertex: every coordinate of
+      every vertex bit for bit, loop order, vertex order, origin flags, depths *)
   Theorem roundtrip_polygon_exact p bs : polygon_ok p ->
-    Forall (fun l => l_vertices l <> [] /\ Forall nonzero_coords (l_vertices l)) (p_loops p) ->
+    Forall (fun l => l_vertices l <> []) (p_loops p) ->
     encode_polygon p = Some bs ->
     decode_polygon bs = Ok (DLossless p) \/ decode_polygon bs = Ok (DCompressed (map cloop_of_loop (p_loops p))).
   Proof.
     intros Hp Hnz He. destruct (roundtrip_polygon p bs Hp He) as [H|(level & Hl & H)]; [now left|right].
     rewrite H. f_equal. f_equal. apply map_ext_in. intros l Hin.
-    rewrite Forall_forall in Hnz. destruct (Hnz l Hin) as (Hne & Hz).
+    rewrite Forall_forall in Hnz. pose proof (Hnz l Hin) as Hne.
     destruct Hp as (Hls & _). rewrite Forall_forall in Hls. destruct (Hls l Hin) as (Hv & _).
     apply cloop_view_exact; auto. lia.
   Qed.
 End ExactPolygon.
 
-(** * The two corners where the full-strength statement fails on the unchanged tree *)
+(** * Zero coordinates of face centres (repaired by d20845c) and the remaining corner *)
 
-(** a zero coordinate of a face centre changes sign: (0,0,1), (1,0,0), (0,1,0) come back as
-    (-0,-0,1), (1,0,0), (-0,1,0) *)
+(** (0,0,1), (1,0,0), (0,1,0): only (1,0,0) is bit for bit a face centre; the two others now
+    travel in the off-centre list and the polygon comes back bit for bit *)
 Definition face_centre_triangle : polygon :=
   mkpolygon [mkloop [(0, 0, 4607182418800017408); (4607182418800017408, 0, 0); (0, 4607182418800017408, 0)]
                     false 0 (mkrect 0 0 0 0)] false (mkrect 0 0 0 0).
-Lemma zero_sign_refuted :
+Lemma zero_sign_roundtrip :
   polygon_ok face_centre_triangle /\
-  encode_polygon face_centre_triangle = Some [4; 0; 1; 3; 8; 6; 7; 0; 0; 0; 0; 0] /\
-  decode_polygon [4; 0; 1; 3; 8; 6; 7; 0; 0; 0; 0; 0] =
-    Ok (DCompressed [mkcloop [(9223372036854775808, 9223372036854775808, 4607182418800017408);
-                              (4607182418800017408, 0, 0);
-                              (9223372036854775808, 4607182418800017408, 0)] false 0 None]).
+  exists bs, encode_polygon face_centre_triangle = Some bs /\
+             decode_polygon bs = Ok (DCompressed (map cloop_of_loop (p_loops face_centre_triangle))).
 Proof.
-  split; [|split].
-  - split; [|repeat split; cbn; lia]. repeat constructor; cbn; unfold u64; try lia; try discriminate.
-  - vm_compute. reflexivity.
-  - vm_compute. reflexivity.
+  split.
+  - split; [|repeat split; cbn; lia]. repeat constructor; cbn; unfold u64; try lia; try discriminate; try reflexivity.
+  - eexists. split; [vm_compute; reflexivity|]. vm_compute. reflexivity.
 Qed.
+(** before d20845c the detection compared with ==: (0,0,1) was accepted as the centre of face 2,
+    whose reconstruction is (-0,-0,1) *)
+Lemma zero_sign_old_refuted :
+  let p := (0, 0, 4607182418800017408) in
+  let c := s2_facePiQitoXYZ 2 0 0 0 in
+  r3_Vector_eqb (vec_of_point p) c = true /\ point_of_vec c = (9223372036854775808, 9223372036854775808, 4607182418800017408)
+  /\ x_level (xyz_face_siti p) = -1.
+Proof. vm_compute. repeat split; reflexivity. Qed.
 
 (** a loop without vertices inside a polygon comes back as the one-vertex empty loop, its depth
     and origin flag reset *)
@@ -222,7 +214,7 @@ Lemma zero_vertex_loop_refuted :
              /\ empty_cloop <> cloop_of_loop (mkloop [] true 1 (mkrect 0 0 0 0)).
 Proof.
   split.
-  - split; [|repeat split; cbn; lia]. repeat constructor; cbn; unfold u64; try lia; try discriminate.
+  - split; [|repeat split; cbn; lia]. repeat constructor; cbn; unfold u64; try lia; try discriminate; try reflexivity.
   - eexists. split; [vm_compute; reflexivity|]. split; [vm_compute; reflexivity|]. discriminate.
 Qed.
 
